@@ -1646,6 +1646,29 @@ func c20Corpus(flavor string, rng *vh.Rng) []*c20Case {
 	add("corpus-fast-resync", []string{"V", "D"}, a(2), fast)
 	add("corpus-fast-resync", []string{"V", "V", "N", "D"}, a(4), fast)
 	add("corpus-fast-resync", []string{"V", "V", "R", "D"}, []string{"a", "b", "a", "b"}, fast)
+	// two controllers on the same parent, child and related resources: whatever happens to one
+	// of them (delete, restart, unstartable spec, replace), the other keeps being served
+	shared := func(c *c20Case, g *c20Gen) {
+		for i := range c.Events {
+			s := c.Events[i].Spec
+			if s == nil || c.Events[i].Abs == "N" || c.Events[i].Abs == "I" {
+				continue
+			}
+			s.Kind, s.NoHooks = "valid", false
+			s.Parents = []c20Rule{c20Things}
+			s.Children = []c20Rule{c20Pods, c20Widgets}
+			s.Sync = &c20HookCfg{URL: true}
+			s.Finalize = nil
+			s.Customize = &c20HookCfg{URL: true, Related: "namespaces"}
+			s.Resync = nil
+		}
+	}
+	add("corpus-shared-resources", []string{"V", "V", "D", "N", "V", "D", "N"}, []string{"a", "b", "a", "b", "a", "b", "a"}, shared)
+	add("corpus-shared-resources", []string{"V", "V", "V", "N", "I", "N", "R", "N"}, []string{"a", "b", "a", "b", "a", "b", "a", "b"}, shared)
+	add("corpus-shared-resources", []string{"V", "V", "R", "V", "D", "N", "D"}, []string{"a", "b", "b", "a", "b", "a", "a"}, func(c *c20Case, g *c20Gen) {
+		shared(c, g)
+		c.Workers = 2
+	})
 	add("corpus-dup-rule", []string{"V", "D"}, a(2), func(c *c20Case, g *c20Gen) {
 		s := c.Events[0].Spec
 		s.Kind, s.Children, s.Customize = "dup-rule", []c20Rule{c20Pods, c20Pods}, nil
